@@ -135,11 +135,14 @@ func runC05(e *Env) {
 						s = -1
 					} else if _, ok := core.CondCall(cond, "message/pool.Message.IsModified"); ok {
 						s = 1
-					} else if cmp, ok := core.AsCmp(cond); ok && cmp.Op == token.EQL && core.Unwrap(cmp.X) == ssa.Value(pr.Params[1]) {
+					} else if cmp, ok := core.AsCmp(cond); ok && (cmp.Op == token.EQL || cmp.Op == token.NEQ) && core.Unwrap(cmp.X) == ssa.Value(pr.Params[1]) {
 						if k, isK := core.ConstInt(cmp.Y); isK && k == 0 {
 							s = sc.con
 						} else if isK && k == 1 {
 							s = sc.non
+						}
+						if cmp.Op == token.NEQ {
+							s = -s // x != k is the negation of x == k
 						}
 					}
 					if neg {
@@ -148,14 +151,16 @@ func runC05(e *Env) {
 					return s
 				})}
 				w := q.Find()
-				e.R.Check(w == nil && len(adds) >= 2, "C05.R3", "udp/client.Conn.processResponse:reply-cached "+sc.name, e.fpos(pr), "a produced reply to a "+sc.name+" request is stored in the cache on every path", "a reply to a "+sc.name+" request can be sent without being cached: "+e.trace(w))
+				e.R.Check(w == nil && len(adds) >= 1, "C05.R3", "udp/client.Conn.processResponse:reply-cached "+sc.name, e.fpos(pr), "a produced reply to a "+sc.name+" request is stored in the cache on every path", "a reply to a "+sc.name+" request can be sent without being cached: "+e.trace(w))
 			}
 		}
 		if e.want("C05.R4") {
 			ok := len(adds) > 0
 			for _, c := range adds {
-				if core.Unwrap(core.Arg(c, 1)) != ssa.Value(pr.Params[2]) {
-					ok = false
+				for _, v := range core.ResolveAll(core.Arg(c, 1)) {
+					if v != ssa.Value(pr.Params[2]) {
+						ok = false
+					}
 				}
 			}
 			e.R.Check(ok, "C05.R4", "udp/client.Conn.processResponse:store-key-is-request-MID", e.fpos(pr), "every store passes processResponse's reqMessageID parameter as the key", "a reply is cached under something other than the request's message ID")
@@ -245,21 +250,14 @@ func runC05(e *Env) {
 			ok := false
 			why := "the cached bytes are not a freshly allocated copy"
 			for _, c := range core.CallsNamed(f, "pkg/cache.NewElement") {
-				data := core.Resolve(core.Arg(c, 0))
-				ms, isMk := data.(*ssa.MakeSlice)
-				if !isMk {
+				src, isCopy := freshCopyOf(core.Arg(c, 0))
+				if !isCopy {
 					why = "the cached value is not a fresh slice: it aliases the pooled message's marshal buffer, which later traffic overwrites"
 					continue
 				}
-				for _, ref := range core.Referrers(ms) {
-					if cp, isCall := ref.(*ssa.Call); isCall {
-						if b, isB := cp.Call.Value.(*ssa.Builtin); isB && b.Name() == "copy" && cp.Call.Args[0] == ssa.Value(ms) {
-							if ex, isEx := core.Resolve(cp.Call.Args[1]).(*ssa.Extract); isEx {
-								if mc, isM := ex.Tuple.(*ssa.Call); isM && core.CalleeName(mc) == "message/pool.Message.MarshalWithEncoder" {
-									ok = true
-								}
-							}
-						}
+				if ex, isEx := src.(*ssa.Extract); isEx {
+					if mc, isM := ex.Tuple.(*ssa.Call); isM && core.CalleeName(mc) == "message/pool.Message.MarshalWithEncoder" {
+						ok = true
 					}
 				}
 			}
@@ -540,15 +538,22 @@ func c06CloneSource(e *Env, chk *ssa.Function) {
 			if _, fl, isF := core.FieldOf(st.Addr); !isF || fl != "msg" {
 				return
 			}
-			v := core.Resolve(st.Val)
-			if v == ssa.Value(f.Params[1]) {
-				return
-			}
-			// the stored message is the target of req.Clone(msg)
-			for _, c := range core.CallsNamed(f, "message/pool.Message.Clone") {
-				if core.Resolve(core.Arg(c, 0)) == ssa.Value(f.Params[1]) && core.Resolve(core.Arg(c, 1)) == v {
-					ok = true
+			// the stored message is the target of req.Clone(msg) (for every way the store is reached from this function)
+			vs := core.ResolveIn(f, st.Val)
+			all := len(vs) > 0
+			for _, v := range vs {
+				isClone := false
+				for _, c := range core.CallsNamed(f, "message/pool.Message.Clone") {
+					if core.Resolve(core.Arg(c, 0)) == ssa.Value(f.Params[1]) && core.Resolve(core.Arg(c, 1)) == v {
+						isClone = true
+					}
 				}
+				if v == ssa.Value(f.Params[1]) || !isClone {
+					all = false
+				}
+			}
+			if all {
+				ok = true
 			}
 		})
 		e.R.Check(ok, rule, "udp/client.Conn.prepareWriteMessage:stores-private-clone", e.fpos(f), "the pending entry holds req.Clone(msg) of a freshly acquired message, not the caller's message", "the pending entry holds the caller's message (later edits would change retransmissions)")
